@@ -144,4 +144,15 @@ theorem convert_safe_urls_harmless : type_of% @GM.Props.ConvertE2E.convert_safe_
     C04 quantifies over all byte strings a node can store -/
 theorem url_pieces_at_attribute_sites : type_of% @GM.Props.ConvertE2E.url_pieces_at_attribute_sites := @GM.Props.ConvertE2E.url_pieces_at_attribute_sites
 
+/-- (re-export of `GM.Props.ConvertE2E.convert_safe_urls_harmless_tokens`) `convert_safe_urls_harmless_tokens` (C04 at TOKEN level). For EVERY source, Unicode class assignment, XHTML /
+    HardWraps setting: the HTML `convertCore` answers in safe mode is accepted by the strict tokenizer and `Spec.urlsOK
+    lookupEntity` holds of its tokens — every `href` / `src` value of every start tag, read the way a browser reads it
+    (`Spec.hrefDangerous`: decode character references, trim, strip tab / CR / LF, read the scheme), is harmless. This is
+    the predicate the run-time oracle `tok urls` evaluates, as a theorem about every document. -/
+theorem convert_safe_urls_harmless_tokens : type_of% @GM.Props.ConvertE2E.convert_safe_urls_harmless_tokens := @GM.Props.ConvertE2E.convert_safe_urls_harmless_tokens
+
+/-- (re-export of `GM.Props.ConvertE2E.render_safe_urls_harmless_tokens`) the renderer half of it for EVERY tree with `Spec.Inv`, every option / extension set (footnote `href="#…"` included):
+    C04 at token level for the renderer model, not only for parser output -/
+theorem render_safe_urls_harmless_tokens : type_of% @GM.Props.ConvertE2E.render_safe_urls_harmless_tokens := @GM.Props.ConvertE2E.render_safe_urls_harmless_tokens
+
 end GM.Props.C04
